@@ -73,37 +73,44 @@ macro_rules! agree_arm {
         pub fn $id() { agree(&$order, &$defs) }
     };
 }
-/// @harness id=c05_root_and_near props=C05,C18 unwind=17 mem=10 cap=1500
+/// @harness id=c05_root_and_near props=C05,C18,C12 unwind=17 mem=10 cap=1500 unwindset=find_inner:3
 /// C0 and C1 define f (root registered first), requested from U.
 agree_arm!(c05_root_and_near, [C0, C1, U], [C0, C1]);
-/// @harness id=c05_same_file_twice props=C05 unwind=17 mem=10 cap=1500
+/// @harness id=c05_same_file_twice props=C05 unwind=17 mem=10 cap=1500 unwindset=find_inner:3
 /// U defines f twice.
 agree_arm!(c05_same_file_twice, [U], [U, U]);
-/// @harness id=c05_import_vs_sibling props=C05 unwind=17 mem=10 cap=1500
+/// @harness id=c05_import_vs_sibling props=C05 unwind=17 mem=10 cap=1500 unwindset=find_inner:3
 /// S and M define f, C1 (symbolically) imports M.
 agree_arm!(c05_import_vs_sibling, [S, M, C1, U], [S, M]);
-/// @harness id=c05_near_import_vs_root_def props=C05,C18 unwind=17 mem=10 cap=1500
+/// @harness id=c05_near_import_vs_root_def props=C05,C18 unwind=17 mem=10 cap=1500 unwindset=find_inner:3
 /// M (registered first) and the root conftest C0 define f; the nearer conftest C1 (symbolically) imports M.
 agree_arm!(c05_near_import_vs_root_def, [M, C0, C1, U], [M, C0]);
-/// @harness id=c05_plugin_third props=C05,C18 unwind=21 mem=10 cap=1500
+/// @harness id=c05_plugin_third props=C05,C18 unwind=21 mem=10 cap=1500 unwindset=find_inner:3
 /// V registered before P; V symbolically also an entry-point plugin.
 agree_arm!(c05_plugin_third, [V, P, U], [V, P]);
-/// @harness id=c05_sibling_only props=C05,C18 unwind=17 mem=10 cap=1500
+/// @harness id=c05_sibling_only props=C05,C18 unwind=17 mem=10 cap=1500 unwindset=find_inner:3
 /// only the sibling conftest defines f: no feature may offer it.
 agree_arm!(c05_sibling_only, [S, U], [S]);
 
 // ------------------------------------------------------------------------------------------------ C04
 /// references(D) contains usage u  <=>  go-to-definition on u lands on D; an unresolved usage is in no set;
-/// no usage twice. Position based: concrete lines, generated text.
+/// no usage twice. Go-to-definition on a recorded usage = the call sequence `find_fixture_definition` performs once
+/// it has located the usage (position lookup itself is C01(b)/C02): the definition on the usage's line, if it has
+/// the same name, is excluded. Definition / test lines are the world's concrete ones.
 pub fn inverse(w: World) {
     assume(w.layout_ok());
     let db = build(&w, WITH_USAGES);
-    // all recorded usages of `f` and `z`
     let mut uses: Vec<(u8, usize, usize, Option<usize>)> = Vec::with_capacity(8);
     for &f in &w.order {
         for u in usages_of_file(&w, f) {
-            let g = db.find_fixture_definition(Path::new(path(f)), (u.line - 1) as u32, u.start_char as u32).map(|d| d.line);
+            let p = Path::new(path(f));
+            let here = db.get_definition_at_line(p, u.line, &u.name);
+            let g = match &here {
+                Some(cur) => db.find_closest_definition_excluding(p, &u.name, Some(cur)),
+                None => db.find_closest_definition(p, &u.name),
+            }.map(|d| d.line);
             uses.push((f, u.line, u.start_char, g));
+            std::mem::forget(here);
         }
     }
     note!("uses (file,line,col,goto-line) = {:?}", uses);
@@ -134,14 +141,13 @@ macro_rules! pos_arm {
         pub fn $id() { $body }
     };
 }
-/// @harness id=c04_inv_shadowed props=C04 unwind=24 mem=12 cap=1800 gates=worlds
+/// @harness id=c04_inv_shadowed props=C04 unwind=24 mem=10 cap=1500 gates=worlds
 /// f in the sibling S (registered first) and in the root C0; tests in U (binds C0) and T2 (binds S); a test
 /// parameter `z` that is no fixture.
 pos_arm!(c04_inv_shadowed, {
     let mut w = World::new(&[S, C0, U, T2]);
     w.def(S, "f", 4); w.def(C0, "f", 6);
     w.test(U, 8, &["f", "z"]); w.test(T2, 10, &["f"]);
-    w.with_text = true;
     inverse(w)
 });
 /// @harness id=c04_inv_override props=C04 unwind=24 mem=12 cap=1800 gates=worlds
@@ -150,7 +156,6 @@ pos_arm!(c04_inv_override, {
     let mut w = World::new(&[C0, C1, U]);
     w.def(C0, "f", 4); let i = w.def(C1, "f", 6); w.defs[i].deps = vec!["f"];
     w.test(U, 8, &["f"]);
-    w.with_text = true;
     inverse(w)
 });
 
@@ -161,7 +166,6 @@ pos_arm!(c04_inv_sibling_first, {
     let mut w = World::new(&[C1, M, U]);
     w.def(C1, "f", 4); w.def(U, "f", 6);
     w.test(M, 8, &["f"]); w.test(U, 10, &["f"]);
-    w.with_text = true;
     inverse(w)
 });
 /// @harness id=c04_inv_usage_above_override props=C04,C02 unwind=24 mem=12 cap=1800 gates=worlds
@@ -171,7 +175,6 @@ pos_arm!(c04_inv_usage_above_override, {
     let mut w = World::new(&[C0, U]);
     w.def(C0, "f", 4); let i = w.def(U, "f", 6); w.defs[i].deps = vec!["f"];
     w.test(U, 3, &["f"]); w.tests[0].before_defs = true;
-    w.with_text = true;
     inverse(w)
 });
 
@@ -214,7 +217,7 @@ macro_rules! cli_arm {
         pub fn $id() { $body }
     };
 }
-/// @harness id=c20_unused_basic props=C20,C04 unwind=17 mem=14 cap=2400
+/// @harness id=c20_unused_basic props=C20,C04 unwind=17 mem=14 cap=2400 unwindset=find_inner:3
 /// C0: f (autouse symbolic), g (autouse symbolic); U: test(f). f used, g unused unless autouse.
 cli_arm!(c20_unused_basic, {
     let mut w = World::new(&[C0, U]);
@@ -224,7 +227,7 @@ cli_arm!(c20_unused_basic, {
     w.test(U, 8, &["f"]);
     unused(w)
 });
-/// @harness id=c20_unused_shadowed props=C20,C04 unwind=17 mem=14 cap=2400
+/// @harness id=c20_unused_shadowed props=C20,C04 unwind=17 mem=14 cap=2400 unwindset=find_inner:3
 /// f in C1 and C0, a test in U: C1's is used, C0's is unused (shadowed), whatever the registration order.
 cli_arm!(c20_unused_shadowed, {
     let mut w = World::new(&[C0, C1, U]);
@@ -232,7 +235,7 @@ cli_arm!(c20_unused_shadowed, {
     w.test(U, 8, &["f"]);
     unused(w)
 });
-/// @harness id=c20_unused_same_file_twice props=C20,C04 unwind=17 mem=14 cap=2400
+/// @harness id=c20_unused_same_file_twice props=C20,C04 unwind=17 mem=14 cap=2400 unwindset=find_inner:3
 /// U defines f twice and uses it once: the first definition is unused, the second used.
 cli_arm!(c20_unused_same_file_twice, {
     let mut w = World::new(&[U]);
@@ -240,7 +243,7 @@ cli_arm!(c20_unused_same_file_twice, {
     w.test(U, 8, &["f"]);
     unused(w)
 });
-/// @harness id=c20_unused_usage_above_override props=C20,C04 unwind=17 mem=14 cap=2400
+/// @harness id=c20_unused_usage_above_override props=C20,C04 unwind=17 mem=14 cap=2400 unwindset=find_inner:3
 /// U: test(f) above the override `def f(f)`; parent f in C0: both are used exactly once, none unused.
 cli_arm!(c20_unused_usage_above_override, {
     let mut w = World::new(&[C0, U]);
@@ -248,7 +251,7 @@ cli_arm!(c20_unused_usage_above_override, {
     w.test(U, 3, &["f"]); w.tests[0].before_defs = true;
     unused(w)
 });
-/// @harness id=c20_unused_same_name_two_files props=C20 unwind=17 mem=14 cap=2400
+/// @harness id=c20_unused_same_name_two_files props=C20 unwind=17 mem=14 cap=2400 unwindset=find_inner:3
 /// the same name g unused in two different conftests (C1 and S), f used: both g entries must be listed.
 cli_arm!(c20_unused_same_name_two_files, {
     let mut w = World::new(&[C1, S, U]);
@@ -256,7 +259,7 @@ cli_arm!(c20_unused_same_name_two_files, {
     w.test(U, 10, &["f"]);
     unused(w)
 });
-/// @harness id=c20_unused_third_party props=C20 unwind=21 mem=14 cap=2400
+/// @harness id=c20_unused_third_party props=C20 unwind=21 mem=14 cap=2400 unwindset=find_inner:3
 /// V: f (third-party, never listed), C0: g unused.
 cli_arm!(c20_unused_third_party, {
     let mut w = World::new(&[V, C0, U]);
